@@ -18,13 +18,58 @@ from common import canon_err, show_ints, show_bool, show_rat, show_rats, parse_r
 PROP = "C11"
 LEAN_MODULE = "SkVerif.Props.C11"
 OBLIGATIONS = [
+    "SkVerif.C11.last_eq_spec",
+    "SkVerif.C11.seasonal_last_eq_spec",
+    "SkVerif.C11.mean_eq_spec",
+    "SkVerif.C11.seasonal_mean_eq_spec_partial",
+    "SkVerif.C11.seasonal_mean_misaligned",
+    "SkVerif.C11.seasonal_alignment_any_window_partial",
+    "SkVerif.C11.seasonal_alignment_fails_witness",
+    "SkVerif.C11.drift_eq_spec",
+    "SkVerif.C11.drift_rejects_missing_endpoint",
+    "SkVerif.C11.fit_window_resolution",
+    "SkVerif.C11.fit_rejects",
+    "SkVerif.C11.insample_eq_one_step_ahead_spec",
+    "SkVerif.C11.insample_last_eq_spec",
+    "SkVerif.C11.insample_mean_eq_spec",
+    "SkVerif.C11.insample_drift_eq_spec_partial",
+    "SkVerif.C11.insample_drift_truncated_witness",
+    "SkVerif.C11.insample_seasonal_mean_eq_spec_partial",
+    "SkVerif.C11.insample_seasonal_mean_raises_witness",
+    "SkVerif.C11.insample_seasonal_last_eq_spec",
+    "SkVerif.C11.predict_splits_horizon",
+    "SkVerif.C11.predict_out_of_sample",
+    "SkVerif.C11.naive_seasonal_last_end_to_end",
+    "SkVerif.C11.trend_design_matrix_eq_spec",
+    "SkVerif.C11.trend_deg1_eq_ols",
+    "SkVerif.C11.trend_deg0_eq_mean",
+    "SkVerif.C11.trend_noicpt_eq_ols",
+    "SkVerif.C11.adapter_selects_requested_steps",
 ]
-TRUSTED = []
-ASSUMPTIONS = []
-RULE = ""
-LEVEL_TEXT = ""
-LEVEL_NOTE = ""
-TECHNIQUE = ""
+TRUSTED = ["hand-written models SkVerif/Model/Naive.lean (naive.py + _BaseWindowForecaster paths of _sktime.py) and SkVerif/Model/Trend.lean "
+           "(trend.py time axis / PolynomialFeatures on one column / closed-form OLS for degree <= 1; _statsmodels.py start/end/.loc selection), "
+           "contiguous integer labels only",
+           "statsmodels (ExponentialSmoothing, ETSModel) and sklearn (LinearRegression, PolynomialFeatures) as black boxes: the wrapped fitted "
+           "model is a function position -> prediction; its dense predictions are fed to the model as data",
+           "independent specification SkVerif/Spec/Naive.lean (textbook formulas) and the Python oracle written from the same formulas"]
+ASSUMPTIONS = ["exact rational arithmetic (dyadic inputs; Python floats compared within 1e-9 relative, 1e-7 for lstsq results)",
+               "integer RangeIndex / Int64Index without gaps (gapped labels give shorter windows: out of scope, DESIGN section 5)",
+               "general-degree trend: only the design matrices handed to the regressor are modelled; the values are checked by the oracle "
+               "against an exact normal-equation solve, not by a theorem",
+               "Theta: only the wrapped SES share (forecast minus the drift the forecaster reports) is compared with statsmodels",
+               "adapters: horizons not earlier than the first observation (statsmodels wraps negative positions)"]
+RULE = ("fixed-order small scope: every (strategy, n<=14, sp<=4, window_length in {None} u 1..n) x (full horizon {-3..9}, every single step, "
+        "random subsets) x (without / with NaN), all non-empty subsets of {-3..9} for 4 configurations (quick: seed-rotated 1/16 resp. 1/64 slice); "
+        "structured random larger cases (n<60, sp<=12); malformed stream; trend values for degree 0..4, design matrices degree 0..5; "
+        "5 statsmodels adapters + Theta vs direct statsmodels calls. distinct by driver line; non-trivial = a forecast with at least one finite value")
+LEVEL_TEXT = ("Lean 4 theorems (all series, periods, window lengths, horizons) that the model of NaiveForecaster / PolynomialTrendForecaster / "
+              "the statsmodels adapter computes the textbook forecast of an independent specification; model tied to /repo by differential "
+              "correspondence on every run; three clauses hold only partially for the code as it is (known findings, negation witnesses proved)")
+LEVEL_NOTE = ("proved for the model: last / seasonal last / mean / drift = textbook for every input; seasonal mean for windows of whole seasons; "
+              "in-sample = one-step-ahead from the moved cutoff; degree<=1 trend = least squares (normal equations + optimality); design matrix = "
+              "Vandermonde; adapter returns the wrapped model's prediction for exactly the requested time points. Only modelled / observed: "
+              "general-degree regression values, statsmodels internals, float rounding, gapped indexes.")
+TECHNIQUE = "interactive theorem proving (Lean 4, Mathlib tactics) over an executable model + differential correspondence testing + textbook oracle"
 
 UNIVERSE = list(range(-3, 10))
 
@@ -345,7 +390,7 @@ def oracle_naive(c, out):
         if dem:
             conds = sorted({_naive_cond(c, h) for h in steps})
             # a raise cannot be attributed to one step: file it under the most specific circumstance present
-            cond = next((k for k in conds if "truncated" in k), conds[0])
+            cond = "truncated-window" if any("truncated" in k for k in conds) else conds[0]
             where = "ins" if steps[0] <= 0 else "oos"
             fails.append(("%s:%s:raises:%s" % (site, where, cond),
                           "predict raised %s although the textbook forecast is defined for steps %r (%s)" % (out, dem, _desc(c))))
